@@ -1,7 +1,9 @@
-#!/bin/sh
-# development helper: apply a patch to /repo, run the given properties, revert. usage: tools_try.sh <patch> C01 C02 ...
-p="$1"; shift
-git -C /repo apply "$p" || exit 3
-for c in "$@"; do /verif/check "$c" quick 2>&1 | grep -E 'violated|VIOLATION|KNOWN|ordalint C|machinery|panic' ; done
-git -C /repo checkout -- .
-git -C /repo status --short | head
+#!/bin/bash
+# usage: try.sh <corpus/id> <prop>...   apply patch on /tmp/sw7, run checks with current bin, revert
+cd /verif
+p=$1; shift
+src=/verif/$p/patch.diff; [ -f /tmp/rebased/$p/patch.diff ] && src=/tmp/rebased/$p/patch.diff
+git -C /tmp/sw7 checkout -q -- . ; git -C /tmp/sw7 clean -fdq
+git -C /tmp/sw7 apply $src || { echo APPLY-FAILED; exit 1; }
+for c in "$@"; do bin/ordalint -repo /tmp/sw7 -property $c -tier quick -evidence /tmp/ev_try.json -known known_findings.json 2>&1 | grep -v KNOWN-FINDING | cut -c1-${W:-260} | tail -${N:-4}; done
+git -C /tmp/sw7 checkout -q -- . ; git -C /tmp/sw7 clean -fdq
